@@ -51,6 +51,23 @@ def explore(ctx, depth):
                            'default export is not the source grid minus comment lines and all-null lines, cell for cell', 'default export')
 
 
+    frontier(ctx, depth)
+
+
+def frontier(ctx, depth):
+    """hidden barlines (=1-): the exporter prints a null cell instead of the barline (finding F16); separator characters inside free text (F10)"""
+    import docrun, impl
+    import kernpy as kp
+    for text, expected, key in (
+            ('**kern\t**kern\n*clefG2\t*clefF4\n=1-\t=1-\n4c\t4C\n=2\t=2\n*-\t*-\n', '**kern\t**kern\n*clefG2\t*clefF4\n=-\t=-\n4c\t4C\n=\t=\n*-\t*-\n', 'F16-hidden-barline'),
+            ('**kern\t**text\n*clefG2\t*\n4c\tcol·legi\n4d\ta@b\n*-\t*-\n', '**kern\t**text\n*clefG2\t*\n4c\tcol·legi\n4d\ta@b\n*-\t*-\n', 'F10-separators-stripped')):
+        got = call(lambda: kp.dumps(kp.loads(text)[0]))
+        m = ctx.driver.ask([{'op': 'doc.run', 'text': text, 'oracle': impl.oracle_for_text(text), 'exports': [{'cats': docrun.ALLC, 'enc': 'kern'}], 'tree': False}])[0]
+        model = m['exports'][0] if 'exports' in m else m['import']
+        ctx.check({'text': text, 'clause': 'frontier'}, got, model, {'ok': expected}, core=False, finding=key, nontrivial=True,
+                  what='a barline does not keep its type / free text is not reproduced verbatim')
+
+
 def replay(ctx, payload):
     explore(ctx, 'quick')
 
